@@ -154,65 +154,68 @@ Proof.
   apply filter_other_phase_false_true.
 Qed.
 
+(* the lenient pass agrees with the strict pass that succeeds *)
 Lemma pass_strict_lenient c T : forall uo m m' rem,
-  pass_strict sch tt c T m uo = Ok (m', rem) -> pass_lenient sch tt c T m uo = LOk m' rem.
+  pass_strict sch tt c T m uo = Ok (m', rem) -> exists done, pass_lenient sch tt c T m uo = (m', rem, done).
 Proof.
   induction uo as [|st r IH]; intros m m' rem H; cbn [pass_strict] in H; cbn [pass_lenient].
-  - inversion H; reflexivity.
+  - inversion H; eauto.
   - destruct (negb (Bool.eqb (is_custom st) c)).
     + destruct (pass_strict sch tt c T m r) as [[m2 rem2]|x] eqn:E2; [|discriminate].
-      inversion H; subst. rewrite (IH _ _ _ E2). reflexivity.
+      inversion H; subst. destruct (IH _ _ _ E2) as [d Hd]. rewrite Hd. eauto.
     + destruct (interpret_field sch tt T m (sname st) (svalue st)) as [m1 [|x es]]; [|discriminate].
-      cbn [has_panic existsb]. rewrite (IH _ _ _ H). reflexivity.
+      destruct (IH _ _ _ H) as [d Hd]. rewrite Hd. eauto.
 Qed.
 
 (* C21: when strict interpretation succeeds, lenient interpretation yields the same message and leaves
    nothing uninterpreted *)
 Lemma strict_ok_implies_lenient_same_lemma T m0 stmts m rem :
   interpret_strict sch tt T m0 stmts = Ok (m, rem) ->
-  interpret_lenient sch tt T m0 stmts = LOk m [] /\ rem = [].
+  (exists done, interpret_lenient sch tt T m0 stmts = (m, [], done)) /\ rem = [].
 Proof.
   intros H. pose proof (no_uninterpreted_left_on_success_lemma _ _ _ _ _ H) as ->. split; [|reflexivity].
   unfold interpret_strict in H. unfold interpret_lenient.
   destruct (pass_strict sch tt false T m0 stmts) as [[m1 r1]|x] eqn:E1; [|discriminate].
-  rewrite (pass_strict_lenient _ _ _ _ _ _ E1). apply pass_strict_lenient. exact H.
+  destruct (pass_strict_lenient _ _ _ _ _ _ E1) as [d1 Hd1]. rewrite Hd1.
+  destruct (pass_strict_lenient _ _ _ _ _ _ H) as [d2 Hd2]. rewrite Hd2. eauto.
 Qed.
 
 (* C21: the remainder of a lenient run is what one walk in source order keeps: exactly the statements whose
    own interpretation reported an error, verbatim and in order *)
-Lemma pass_lenient_ref_walk T : forall stmts ma mb m1 r1 m rem,
-  pass_lenient sch tt false T ma stmts = LOk m1 r1 ->
-  pass_lenient sch tt true T mb r1 = LOk m rem ->
+Lemma pass_lenient_ref_walk T : forall stmts ma mb m1 r1 d1 m rem d2,
+  pass_lenient sch tt false T ma stmts = (m1, r1, d1) ->
+  pass_lenient sch tt true T mb r1 = (m, rem, d2) ->
   ref_walk sch tt T ma mb stmts = (m1, m, rem).
 Proof.
-  induction stmts as [|st r IH]; intros ma mb m1 r1 m rem H1 H2; cbn [pass_lenient] in H1; cbn [ref_walk].
+  induction stmts as [|st r IH]; intros ma mb m1 r1 d1 m rem d2 H1 H2; cbn [pass_lenient] in H1; cbn [ref_walk].
   - inversion H1; subst. cbn in H2. inversion H2; subst. reflexivity.
   - destruct (is_custom st) eqn:Ec; cbn [Bool.eqb negb] in H1.
     + (* custom: skipped by the first pass, interpreted by the second *)
-      destruct (pass_lenient sch tt false T ma r) as [m1' r1'|] eqn:E1; [|discriminate].
+      destruct (pass_lenient sch tt false T ma r) as [[m1' r1'] d1'] eqn:E1.
       inversion H1; subst. cbn [pass_lenient] in H2. rewrite Ec in H2. cbn [Bool.eqb negb] in H2.
-      destruct (interpret_field sch tt T mb (sname st) (svalue st)) as [mb' e] eqn:Ei.
-      destruct (has_panic e); [discriminate|].
-      destruct (pass_lenient sch tt true T mb' r1') as [m' rem'|] eqn:E2; [|discriminate].
-      inversion H2; subst. rewrite (IH _ _ _ _ _ _ E1 E2). destruct e; reflexivity.
+      destruct (interpret_field sch tt T mb (sname st) (svalue st)) as [mb' [|x es]] eqn:Ei.
+      * destruct (pass_lenient sch tt true T mb' r1') as [[m' rem'] d2'] eqn:E2.
+        inversion H2; subst. eapply IH; eassumption.
+      * destruct (pass_lenient sch tt true T mb r1') as [[m' rem'] d2'] eqn:E2.
+        inversion H2; subst. rewrite (IH _ _ _ _ _ _ _ _ E1 E2). reflexivity.
     + (* non-custom: interpreted by the first pass; if kept, skipped by the second *)
-      destruct (interpret_field sch tt T ma (sname st) (svalue st)) as [ma' e] eqn:Ei.
-      destruct (has_panic e); [discriminate|].
-      destruct (pass_lenient sch tt false T ma' r) as [m1' r1'|] eqn:E1; [|discriminate].
-      inversion H1; subst. destruct e as [|x es].
-      * rewrite (IH _ _ _ _ _ _ E1 H2). reflexivity.
-      * cbn [pass_lenient] in H2. rewrite Ec in H2. cbn [Bool.eqb negb] in H2.
-        destruct (pass_lenient sch tt true T mb r1') as [m' rem'|] eqn:E2; [|discriminate].
-        inversion H2; subst. rewrite (IH _ _ _ _ _ _ E1 E2). reflexivity.
+      destruct (interpret_field sch tt T ma (sname st) (svalue st)) as [ma' [|x es]] eqn:Ei.
+      * destruct (pass_lenient sch tt false T ma' r) as [[m1' r1'] d1'] eqn:E1.
+        inversion H1; subst. eapply IH; eassumption.
+      * destruct (pass_lenient sch tt false T ma r) as [[m1' r1'] d1'] eqn:E1.
+        inversion H1; subst. cbn [pass_lenient] in H2. rewrite Ec in H2. cbn [Bool.eqb negb] in H2.
+        destruct (pass_lenient sch tt true T mb r1') as [[m' rem'] d2'] eqn:E2.
+        inversion H2; subst. rewrite (IH _ _ _ _ _ _ _ _ E1 E2). reflexivity.
 Qed.
 
-Lemma uninterpreted_kept_verbatim_lemma T m0 stmts m rem :
-  interpret_lenient sch tt T m0 stmts = LOk m rem ->
+Lemma uninterpreted_kept_verbatim_lemma T m0 stmts m rem done :
+  interpret_lenient sch tt T m0 stmts = (m, rem, done) ->
   exists m1, ref_walk sch tt T m0 m1 stmts = (m1, m, rem).
 Proof.
   unfold interpret_lenient. intros H.
-  destruct (pass_lenient sch tt false T m0 stmts) as [m1 r1|] eqn:E1; [|discriminate].
-  exists m1. eapply pass_lenient_ref_walk; eassumption.
+  destruct (pass_lenient sch tt false T m0 stmts) as [[m1 r1] d1] eqn:E1.
+  destruct (pass_lenient sch tt true T m1 r1) as [[m2 r2] d2] eqn:E2.
+  inversion H; subst. exists m1. eapply pass_lenient_ref_walk; eassumption.
 Qed.
 End Passes.
 
@@ -228,13 +231,76 @@ Proof.
   induction sts as [|st r IH]; intros ma mb ma' mb' rem H; cbn [ref_walk] in H.
   - inversion H; constructor.
   - destruct (is_custom st).
-    + destruct (interpret_field sch tt T mb (sname st) (svalue st)) as [mb1 e].
-      destruct (ref_walk sch tt T ma mb1 r) as [[ma2 mb2] rem2] eqn:E. inversion H; subst.
-      destruct e; [apply subseq_drop|apply subseq_keep]; eapply IH; eassumption.
-    + destruct (interpret_field sch tt T ma (sname st) (svalue st)) as [ma1 e].
-      destruct (ref_walk sch tt T ma1 mb r) as [[ma2 mb2] rem2] eqn:E. inversion H; subst.
-      destruct e; [apply subseq_drop|apply subseq_keep]; eapply IH; eassumption.
+    + destruct (interpret_field sch tt T mb (sname st) (svalue st)) as [mb1 [|x es]].
+      * apply subseq_drop. eapply IH; eassumption.
+      * destruct (ref_walk sch tt T ma mb r) as [[ma2 mb2] rem2] eqn:E. inversion H; subst.
+        apply subseq_keep. eapply IH; eassumption.
+    + destruct (interpret_field sch tt T ma (sname st) (svalue st)) as [ma1 [|x es]].
+      * apply subseq_drop. eapply IH; eassumption.
+      * destruct (ref_walk sch tt T ma mb r) as [[ma2 mb2] rem2] eqn:E. inversion H; subst.
+        apply subseq_keep. eapply IH; eassumption.
 Qed.
+
+Lemma subseq_trans {A} : forall (b c : list A), subseq b c -> forall a, subseq a b -> subseq a c.
+Proof.
+  induction 1 as [|x b c Hbc IH|x b c Hbc IH]; intros a Hab.
+  - exact Hab.
+  - inversion Hab; subst; [apply subseq_keep; apply IH; assumption|apply subseq_drop; apply IH; assumption].
+  - apply subseq_drop. apply IH. exact Hab.
+Qed.
+
+(* ================================================================== no half-populated options message *)
+Section NoHalf.
+Variable sch : schema.
+Variable tt : N.
+
+Lemma apply_all_app T : forall a b m,
+  apply_all sch tt T m (a ++ b) = match apply_all sch tt T m a with Some m1 => apply_all sch tt T m1 b | None => None end.
+Proof.
+  induction a as [|st r IH]; intros b m; cbn [app apply_all]; [reflexivity|].
+  destruct (interpret_field sch tt T m (sname st) (svalue st)) as [m1 [|x es]]; [apply IH|reflexivity].
+Qed.
+
+(* one pass: the message is what the interpreted options alone produce, each without error; every option of the
+   pass is either kept or interpreted, in order *)
+Lemma pass_lenient_spec c T : forall uo m m' rem done,
+  pass_lenient sch tt c T m uo = (m', rem, done) ->
+  apply_all sch tt T m done = Some m' /\ subseq rem uo /\ subseq done uo /\
+  (List.length rem + List.length done = List.length uo)%nat.
+Proof.
+  induction uo as [|st r IH]; intros m m' rem done H; cbn [pass_lenient] in H.
+  - inversion H; subst. repeat split; constructor.
+  - destruct (negb (Bool.eqb (is_custom st) c)).
+    + destruct (pass_lenient sch tt c T m r) as [[m2 rem2] done2] eqn:E.
+      inversion H; subst. destruct (IH _ _ _ _ E) as [Ha [Hr [Hd Hl]]].
+      repeat split; [exact Ha|apply subseq_keep; exact Hr|apply subseq_drop; exact Hd|cbn [List.length]; lia].
+    + destruct (interpret_field sch tt T m (sname st) (svalue st)) as [m1 [|x es]] eqn:Ei.
+      * destruct (pass_lenient sch tt c T m1 r) as [[m2 rem2] done2] eqn:E.
+        inversion H; subst. destruct (IH _ _ _ _ E) as [Ha [Hr [Hd Hl]]].
+        repeat split; [cbn [apply_all]; rewrite Ei; exact Ha|apply subseq_drop; exact Hr|apply subseq_keep; exact Hd|cbn [List.length]; lia].
+      * destruct (pass_lenient sch tt c T m r) as [[m2 rem2] done2] eqn:E.
+        inversion H; subst. destruct (IH _ _ _ _ E) as [Ha [Hr [Hd Hl]]].
+        repeat split; [exact Ha|apply subseq_keep; exact Hr|apply subseq_drop; exact Hd|cbn [List.length]; lia].
+Qed.
+
+(* C21: the options message of a lenient run is exactly what the interpreted options produce when applied alone,
+   in the order of the two passes and each without error - options that are kept uninterpreted leave no trace.
+   The remainder and the interpreted options partition the statements, each in source order. *)
+Lemma no_half_population_lemma T m0 stmts m rem done :
+  interpret_lenient sch tt T m0 stmts = (m, rem, done) ->
+  apply_all sch tt T m0 done = Some m /\ subseq rem stmts /\
+  (List.length rem + List.length done = List.length stmts)%nat.
+Proof.
+  unfold interpret_lenient. intros H.
+  destruct (pass_lenient sch tt false T m0 stmts) as [[m1 r1] d1] eqn:E1.
+  destruct (pass_lenient sch tt true T m1 r1) as [[m2 r2] d2] eqn:E2.
+  inversion H; subst.
+  destruct (pass_lenient_spec _ _ _ _ _ _ _ E1) as [Ha1 [Hr1 [Hd1 Hl1]]].
+  destruct (pass_lenient_spec _ _ _ _ _ _ _ E2) as [Ha2 [Hr2 [Hd2 Hl2]]].
+  split; [rewrite apply_all_app, Ha1; exact Ha2|]. split; [exact (subseq_trans _ _ Hr1 _ Hr2)|].
+  rewrite app_length. lia.
+Qed.
+End NoHalf.
 
 (* ================================================================== half-populated messages *)
 (* The code as it is: a failing statement can leave the message changed.  Three witnesses, one per way. *)
@@ -264,7 +330,9 @@ Lemma half_population_target :
   = ([(50002%N, VS (SInt 1))], [ETargetType]).
 Proof. vm_compute. reflexivity. Qed.
 
-Lemma no_half_population_refuted_lemma :
+(* interpretField by itself still leaves such traces behind a failure (that is how the Go function works);
+   since 307ffab4 the lenient pass goes back to the copy it made before the option *)
+Lemma interpret_field_leaves_traces_lemma :
   exists sch tt T m name v m' e,
     interpret_field sch tt T m name v = (m', e) /\ e <> [] /\ m' <> m.
 Proof.
@@ -272,13 +340,15 @@ Proof.
   eexists. eexists. split; [apply half_population_path|]. split; discriminate.
 Qed.
 
-(* and the whole lenient run hands back that message together with the statement as uninterpreted *)
-Lemma no_half_population_run_refuted_lemma :
+(* historical: before 307ffab4 the whole lenient run handed back that message together with the statement as
+   uninterpreted; now the message is untouched *)
+Lemma no_half_population_old_refuted_lemma :
   exists sch tt T st m,
-    interpret_lenient sch tt T [] [st] = LOk m [st] /\ m <> [].
+    interpret_lenient_old sch tt T [] [st] = (m, [st]) /\ m <> [] /\
+    interpret_lenient sch tt T [] [st] = ([], [st], []).
 Proof.
   exists hp_schema, 3%N, 0%nat, (mkStmt [PExt "foo"; PField "sub"; PField "a"] (OStr [98%N])).
-  eexists. split; [vm_compute; reflexivity|discriminate].
+  eexists. split; [vm_compute; reflexivity|]. split; [discriminate|vm_compute; reflexivity].
 Qed.
 
 (* Where it does hold. *)
@@ -360,7 +430,7 @@ Proof.
      destruct Hd as [Hd|Hd]; [discriminate|subst e0];
      destruct (oneof_conflict fields fld m); [inversion H; reflexivity|];
      destruct (frep fld); [inversion H; subst; congruence|];
-     destruct (has fld m); inversion H; subst; [reflexivity|congruence]).
+     destruct (is_set false fld m); inversion H; subst; [reflexivity|congruence]).
 Qed.
 
 Lemma no_half_population_partial_lemma sch tt : targets_free sch = true ->
@@ -393,28 +463,9 @@ Proof.
     apply Z.leb_le in H1; apply Z.leb_le in H2; lia.
 Qed.
 
-Definition plain_ident (v : oval) : Prop := match v with OIdent id => plain_word id = true | _ => True end.
-
-Lemma lexable_b_plain v : lexable_b v = true -> plain_ident v.
-Proof. destruct v; cbn; auto. Qed.
-
-Lemma lower_inf : lower "inf" = "inf"%string. Proof. reflexivity. Qed.
-Lemma lower_nan : lower "nan" = "nan"%string. Proof. reflexivity. Qed.
-
-(* for a plain identifier the case-insensitive reading of the special float words changes nothing *)
-Lemma float_word_plain inlit w : plain_word w = true -> float_word true inlit w = float_word false inlit w.
+Lemma scalar_eq_spec k v inlit : lexable v -> scalar_field_value k v inlit = spec_scalar true k v inlit.
 Proof.
-  unfold plain_word, float_word. intros Hp. destruct inlit; cbn [andb]; [|reflexivity].
-  destruct (String.eqb_spec w "inf") as [Hi|Hi]; [subst w; reflexivity|].
-  destruct (String.eqb_spec w "nan") as [Hn|Hn]; [subst w; reflexivity|].
-  rewrite !orb_false_r in Hp. apply negb_true_iff in Hp.
-  apply orb_false_iff in Hp. destruct Hp as [Hp H3]. apply orb_false_iff in Hp. destruct Hp as [H1 H2].
-  rewrite H1, H2, H3. reflexivity.
-Qed.
-
-Lemma scalar_eq_spec k v inlit : lexable v -> plain_ident v -> scalar_field_value k v inlit = spec_scalar true k v inlit.
-Proof.
-  intros Hl Hp. unfold spec_scalar. destruct (int_range k) as [[lo hi]|] eqn:Er.
+  intros Hl. unfold spec_scalar. destruct (int_range k) as [[lo hi]|] eqn:Er.
   - destruct (num_value v) as [z|] eqn:Ev.
     + eapply scalar_coercion_ranges_lemma; eassumption.
     + eapply noninteger_rejected_lemma; eassumption.
@@ -423,12 +474,8 @@ Proof.
       destruct v; try reflexivity. destruct inlit; cbn [scalar_field_value true_words false_words str_in existsb].
       * reflexivity.
       * rewrite !orb_false_r. reflexivity.
-    + (* float *) destruct v as [| |d|id| | |]; try reflexivity; [destruct d; reflexivity|].
-      cbn [scalar_field_value spec_float]. cbn in Hp. rewrite (float_word_plain inlit id Hp). unfold float_word. cbn [andb].
-      destruct (String.eqb id "inf"); [reflexivity|]. destruct (String.eqb id "nan"); reflexivity.
-    + (* double *) destruct v as [| |d|id| | |]; try reflexivity; [destruct d; reflexivity|].
-      cbn [scalar_field_value spec_float]. cbn in Hp. rewrite (float_word_plain inlit id Hp). unfold float_word. cbn [andb].
-      destruct (String.eqb id "inf"); [reflexivity|]. destruct (String.eqb id "nan"); reflexivity.
+    + (* float *) destruct v as [| |d|w| | |]; try reflexivity. destruct d; reflexivity.
+    + (* double *) destruct v as [| |d|w| | |]; try reflexivity. destruct d; reflexivity.
 Qed.
 
 Lemma enum_by_name_find vs n :
@@ -505,13 +552,13 @@ Proof.
 Qed.
 
 (* setOptionField (through the aborting handler) = evaluate the occurrence, then store it *)
-Lemma set_field_agree fv sv fields m fld v m' es :
+Lemma set_field_agree fv sv fields inlit m fld v m' es :
   field_wf fld = true -> arg_agree fv sv fld v ->
-  set_option_field_with fv fields false m fld v = (m', es) ->
+  set_option_field_with fv fields inlit m fld v = (m', es) ->
   match es with
-  | [] => exists vs, spec_values_with sv fld v = Ok vs /\ spec_store fields fld vs m = Ok m'
+  | [] => exists vs, spec_values_with sv fld v = Ok vs /\ spec_store inlit fields fld vs m = Ok m'
   | _ :: _ => (exists e, spec_values_with sv fld v = Err e) \/
-              (exists vs e, spec_values_with sv fld v = Ok vs /\ spec_store fields fld vs m = Err e)
+              (exists vs e, spec_values_with sv fld v = Ok vs /\ spec_store inlit fields fld vs m = Err e)
   end.
 Proof.
   intros Hwf Ha H. unfold set_option_field_with in H.
@@ -522,30 +569,30 @@ Proof.
      | None => (m, e)
      | Some x => if oneof_conflict fields fld m then (m, e ++ [EOneof])
                  else if frep fld then (mappend (fnum fld) x m, e)
-                 else if has fld m then (m, e ++ [EAlreadySet]) else (mset (fnum fld) x m, e)
+                 else if is_set inlit fld m then (m, e ++ [EAlreadySet]) else (mset (fnum fld) x m, e)
      end) = (m', es) ->
     match es with
-    | [] => exists vs, (match sv fld v with Ok x => Ok [x] | Err e => Err e end) = Ok vs /\ spec_store fields fld vs m = Ok m'
+    | [] => exists vs, (match sv fld v with Ok x => Ok [x] | Err e => Err e end) = Ok vs /\ spec_store inlit fields fld vs m = Ok m'
     | _ :: _ => (exists e, (match sv fld v with Ok x => Ok [x] | Err e => Err e end) = Err e) \/
-                (exists vs e, (match sv fld v with Ok x => Ok [x] | Err e => Err e end) = Ok vs /\ spec_store fields fld vs m = Err e)
+                (exists vs e, (match sv fld v with Ok x => Ok [x] | Err e => Err e end) = Ok vs /\ spec_store inlit fields fld vs m = Err e)
     end).
   { intros _ Hag Hr. unfold vres_agree in Hag. destruct (fv fld v) as [ov e]. cbn [fst snd] in Hag.
     destruct e as [|e1 er].
-    - destruct Hag as [x [-> Hs]]. rewrite Hs. unfold spec_store.
+    - destruct Hag as [x [-> Hs]]. rewrite Hs. unfold spec_store. fold (is_set inlit fld m).
       destruct (frep fld) eqn:Er.
       + rewrite (wf_rep_no_oneof _ _ _ Hwf Er) in Hr. inversion Hr; subst. exists [x]. split; reflexivity.
       + destruct (oneof_conflict fields fld m).
         * inversion Hr; subst. right. exists [x], EOneof. split; reflexivity.
-        * destruct (has fld m); inversion Hr; subst.
+        * destruct (is_set inlit fld m); inversion Hr; subst.
           -- right. exists [x], EAlreadySet. split; reflexivity.
           -- exists [x]. split; reflexivity.
     - destruct Hag as [e2 He2]. rewrite He2.
       assert (Hne : exists a b, es = a :: b).
       { destruct ov; [|inversion Hr; eauto].
         destruct (oneof_conflict fields fld m); [inversion Hr; cbn; eauto|].
-        destruct (frep fld); [inversion Hr; eauto|]. destruct (has fld m); inversion Hr; cbn; eauto. }
+        destruct (frep fld); [inversion Hr; eauto|]. destruct (is_set inlit fld m); inversion Hr; cbn; eauto. }
       destruct Hne as [a [b ->]]. left. eauto. }
-  destruct v; cbn [arg_agree andb is_omsg] in *;
+  destruct v; cbn [arg_agree] in *;
     try (unfold spec_values_with; apply (Hscalar I Ha H)).
   (* array literal *)
   unfold spec_values_with. destruct (frep fld) eqn:Er; cbn [negb] in H.
@@ -555,38 +602,11 @@ Proof.
   - inversion H; subst. left. eauto.
 Qed.
 
-(* a foreign extension inside a literal always ends in an error *)
-Lemma set_field_foreign fv sv fields m fld v m' es :
-  arg_agree fv sv fld v -> set_option_field_with fv fields true m fld v = (m', es) -> es <> [].
-Proof.
-  intros Ha H. unfold set_option_field_with in H.
-  destruct v; cbn [arg_agree] in Ha;
-    try (cbn [andb orb] in H;
-         destruct (frep fld || (is_kmsg (fkind fld) && _)); [inversion H; discriminate|];
-         unfold vres_agree in Ha; destruct (fv fld _) as [ov e]; cbn [fst snd] in Ha;
-         destruct ov; [inversion H; subst; destruct e; discriminate|];
-         inversion H; subst; destruct es; [destruct Ha as [x [Hx _]]; discriminate|discriminate]).
-  destruct (negb (frep fld)); inversion H; discriminate.
-Qed.
-
 (* ================================================================== model = specification: message literals *)
 Section Literals.
 Variable sch : schema.
 Variable tt : N.
 Hypothesis Hwf : schema_wf sch = true.
-Hypothesis Hex : schema_explicit sch = true.
-
-(* with presence everywhere, everything that is set is on the wire *)
-Lemma on_wire_explicit md m : on_wire (msg_fields sch md) m = m.
-Proof.
-  unfold on_wire. induction m as [|[n v] r IH]; [reflexivity|]. cbn [filter fst snd].
-  assert (Hz : implicit_zero (msg_fields sch md) n v = false).
-  { unfold implicit_zero. destruct (find (fun f => N.eqb (fnum f) n) (msg_fields sch md)) as [f|] eqn:Ef; [|reflexivity].
-    apply find_some in Ef. destruct Ef as [Hin _].
-    pose proof (all_fields_msg field_explicit sch md f Hex Hin) as He. unfold field_explicit in He.
-    destruct (fimplicit f); [discriminate|reflexivity]. }
-  rewrite Hz. cbn [negb]. rewrite IH. reflexivity.
-Qed.
 
 Lemma schema_wf_all : all_fields field_wf sch = true.
 Proof. exact Hwf. Qed.
@@ -597,20 +617,18 @@ Proof.
   destruct (existsb (N.eqb tt) (t :: ts)); split; intros H; try reflexivity; discriminate.
 Qed.
 
-Lemma lit_field_spec md nm :
-  match lit_field sch md nm with
-  | Err x => spec_lit_field sch md nm = Err x
-  | Ok (f, false) => spec_lit_field sch md nm = Ok f /\ field_wf f = true
-  | Ok (f, true) => spec_lit_field sch md nm = Err EWrongExtendee
-  end.
+Lemma lit_field_spec md nm : spec_lit_field sch md nm = lit_field sch md nm.
+Proof. destruct nm; reflexivity. Qed.
+
+Lemma lit_field_wf md nm f : lit_field sch md nm = Ok f -> field_wf f = true.
 Proof.
-  destruct nm as [s|s]; cbn [lit_field spec_lit_field].
-  - destruct (field_by_name (msg_fields sch md) s) as [f|] eqn:E; [|reflexivity].
-    split; [reflexivity|]. apply (all_fields_msg field_wf sch md); [exact schema_wf_all|].
+  destruct nm as [s|s]; cbn [lit_field].
+  - destruct (field_by_name (msg_fields sch md) s) as [g|] eqn:E; [|discriminate].
+    intros H; inversion H; subst. apply (all_fields_msg field_wf sch md); [exact schema_wf_all|].
     eapply field_by_name_In; eassumption.
-  - destruct (ext_by_name (sexts sch) s) as [x|] eqn:E; [|reflexivity].
-    destruct (Nat.eqb (xextendee x) md); cbn [negb]; [|reflexivity].
-    split; [reflexivity|]. apply (all_fields_ext field_wf sch); [exact schema_wf_all|].
+  - destruct (ext_by_name (sexts sch) s) as [x|] eqn:E; [|discriminate].
+    destruct (Nat.eqb (xextendee x) md); [|discriminate].
+    intros H; inversion H; subst. apply (all_fields_ext field_wf sch); [exact schema_wf_all|].
     eapply ext_by_name_In; eassumption.
 Qed.
 
@@ -626,36 +644,28 @@ Proof.
   induction fs as [|[nm fv1] r IH]; intros m had flag ov es Hall H Hhad; cbn [lit_loop] in H; cbn [spec_lit_loop].
   - destruct had.
     + inversion H; subst. specialize (Hhad eq_refl). destruct es; [congruence|left; discriminate].
-    + inversion H; subst. rewrite on_wire_explicit. destruct es; [split; [reflexivity|]; eauto|left; discriminate].
+    + inversion H; subst. destruct es; [split; [reflexivity|]; eauto|left; discriminate].
   - inversion Hall as [|? ? Hp Hr]; subst. cbn [snd] in Hp.
-    pose proof (lit_field_spec md nm) as Hlf.
-    destruct (lit_field sch md nm) as [[ffld foreign]|x].
-    + destruct (set_option_field_with fv (msg_fields sch md) foreign m ffld fv1) as [m1 e1] eqn:Es.
-      destruct foreign.
-      * (* extension of another message *)
-        pose proof (set_field_foreign _ _ _ _ _ _ _ _ (Hp ffld) Es) as Hne.
-        assert (Hfl : flag ++ check_field_usage tt ffld ++ e1 <> []).
-        { intros Hc. apply app_nil_inv in Hc. destruct Hc as [_ Hc]. apply app_nil_inv in Hc. destruct Hc; congruence. }
-        specialize (IH _ _ _ _ _ Hr H (fun _ => Hfl)). rewrite Hlf.
-        destruct es; [destruct IH; congruence|right; eauto].
-      * destruct Hlf as [Hlf Hfw]. rewrite Hlf.
-        pose proof (set_field_agree _ _ _ _ _ _ _ _ Hfw (Hp ffld) Es) as Hb.
-        assert (Hhad' : had = true -> flag ++ check_field_usage tt ffld ++ e1 <> []).
-        { intros Hh Hc. apply app_nil_inv in Hc. destruct Hc as [Hc _]. exact (Hhad Hh Hc). }
-        specialize (IH _ _ _ _ _ Hr H Hhad').
-        destruct es as [|e0 er].
-        -- destruct IH as [Hf [m2 [Hov Hsp]]]. apply app_nil_inv in Hf. destruct Hf as [-> Hf].
-           apply app_nil_inv in Hf. destruct Hf as [Hu ->]. apply usage_target in Hu. rewrite Hu. cbn [negb].
-           destruct Hb as [vs [Hv Hst]]. rewrite Hv, Hst. split; [reflexivity|]. eauto.
-        -- destruct flag as [|f0 fr]; [|left; discriminate]. right. cbn [app] in IH.
-           destruct (target_ok tt ffld) eqn:Et; cbn [negb]; [|eauto].
-           apply usage_target in Et. rewrite Et in IH. cbn [app] in IH.
-           destruct e1 as [|e1 e1r].
-           ++ destruct Hb as [vs [Hv Hst]]. rewrite Hv, Hst.
-              destruct IH as [Hbad|He]; [exfalso; apply Hbad; reflexivity|exact He].
-           ++ destruct Hb as [[e He]|[vs [e [Hv Hst]]]]; [rewrite He; eauto|rewrite Hv, Hst; eauto].
-    + rewrite Hlf.
-      assert (Hfl : flag ++ [x] <> []) by (destruct flag; discriminate).
+    rewrite lit_field_spec.
+    destruct (lit_field sch md nm) as [ffld|x] eqn:Elf.
+    + pose proof (lit_field_wf _ _ _ Elf) as Hfw.
+      destruct (set_option_field_with fv (msg_fields sch md) true m ffld fv1) as [m1 e1] eqn:Es.
+      pose proof (set_field_agree _ _ _ _ _ _ _ _ _ Hfw (Hp ffld) Es) as Hb.
+      assert (Hhad' : had = true -> flag ++ check_field_usage tt ffld ++ e1 <> []).
+      { intros Hh Hc. apply app_nil_inv in Hc. destruct Hc as [Hc _]. exact (Hhad Hh Hc). }
+      specialize (IH _ _ _ _ _ Hr H Hhad').
+      destruct es as [|e0 er].
+      * destruct IH as [Hf [m2 [Hov Hsp]]]. apply app_nil_inv in Hf. destruct Hf as [-> Hf].
+        apply app_nil_inv in Hf. destruct Hf as [Hu ->]. apply usage_target in Hu. rewrite Hu. cbn [negb].
+        destruct Hb as [vs [Hv Hst]]. rewrite Hv, Hst. split; [reflexivity|]. eauto.
+      * destruct flag as [|f0 fr]; [|left; discriminate]. right. cbn [app] in IH.
+        destruct (target_ok tt ffld) eqn:Et; cbn [negb]; [|eauto].
+        apply usage_target in Et. rewrite Et in IH. cbn [app] in IH.
+        destruct e1 as [|e1 e1r].
+        -- destruct Hb as [vs [Hv Hst]]. rewrite Hv, Hst.
+           destruct IH as [Hbad|He]; [exfalso; apply Hbad; reflexivity|exact He].
+        -- destruct Hb as [[e He]|[vs [e [Hv Hst]]]]; [rewrite He; eauto|rewrite Hv, Hst; eauto].
+    + assert (Hfl : flag ++ [x] <> []) by (destruct flag; discriminate).
       specialize (IH _ _ _ _ _ Hr H (fun _ => Hfl)).
       destruct es; [destruct IH; congruence|right; eauto].
 Qed.
@@ -691,35 +701,35 @@ Proof.
   apply oval_ind2.
   1-5: (intros a; split; [|exact I]; intros Hlex fld inlit; unfold vres_agree).
   - (* OInt *) cbn [field_value spec_value]. destruct (fkind fld) eqn:Ek;
-      try (rewrite (scalar_eq_spec _ (OInt a) inlit (lexable_b_lexable _ Hlex) I);
+      try (rewrite (scalar_eq_spec _ (OInt a) inlit (lexable_b_lexable _ Hlex));
            destruct (spec_scalar true _ (OInt a) inlit); cbn; eauto).
     + destruct (nth_error (senums sch) e); [|cbn; eauto].
       rewrite (enum_eq_spec _ (OInt a) inlit (lexable_b_lexable _ Hlex)). destruct (spec_enum _ _ _); cbn; eauto.
     + cbn. eauto.
   - (* OUint *) cbn [field_value spec_value]. destruct (fkind fld) eqn:Ek;
-      try (rewrite (scalar_eq_spec _ (OUint a) inlit (lexable_b_lexable _ Hlex) I);
+      try (rewrite (scalar_eq_spec _ (OUint a) inlit (lexable_b_lexable _ Hlex));
            destruct (spec_scalar true _ (OUint a) inlit); cbn; eauto).
     + destruct (nth_error (senums sch) e); [|cbn; eauto].
       rewrite (enum_eq_spec _ (OUint a) inlit (lexable_b_lexable _ Hlex)). destruct (spec_enum _ _ _); cbn; eauto.
     + cbn. eauto.
   - (* OFloat *) cbn [field_value spec_value]. destruct (fkind fld) eqn:Ek;
-      try (rewrite (scalar_eq_spec _ (OFloat a) inlit I I); destruct (spec_scalar true _ (OFloat a) inlit); cbn; eauto).
+      try (rewrite (scalar_eq_spec _ (OFloat a) inlit I); destruct (spec_scalar true _ (OFloat a) inlit); cbn; eauto).
     + destruct (nth_error (senums sch) e); [|cbn; eauto].
       rewrite (enum_eq_spec _ (OFloat a) inlit I). destruct (spec_enum _ _ _); cbn; eauto.
     + cbn. eauto.
   - (* OIdent *) cbn [field_value spec_value]. destruct (fkind fld) eqn:Ek;
-      try (rewrite (scalar_eq_spec _ (OIdent a) inlit I (lexable_b_plain _ Hlex)); destruct (spec_scalar true _ (OIdent a) inlit); cbn; eauto).
+      try (rewrite (scalar_eq_spec _ (OIdent a) inlit I); destruct (spec_scalar true _ (OIdent a) inlit); cbn; eauto).
     + destruct (nth_error (senums sch) e); [|cbn; eauto].
       rewrite (enum_eq_spec _ (OIdent a) inlit I). destruct (spec_enum _ _ _); cbn; eauto.
     + cbn. eauto.
   - (* OStr *) cbn [field_value spec_value]. destruct (fkind fld) eqn:Ek;
-      try (rewrite (scalar_eq_spec _ (OStr a) inlit I I); destruct (spec_scalar true _ (OStr a) inlit); cbn; eauto).
+      try (rewrite (scalar_eq_spec _ (OStr a) inlit I); destruct (spec_scalar true _ (OStr a) inlit); cbn; eauto).
     + destruct (nth_error (senums sch) e); [|cbn; eauto].
       rewrite (enum_eq_spec _ (OStr a) inlit I). destruct (spec_enum _ _ _); cbn; eauto.
     + cbn. eauto.
   - (* OMsg *) intros fs IHfs. split; [|exact I]. intros Hlex fld inlit. unfold vres_agree.
     cbn [field_value spec_value]. destruct (fkind fld) eqn:Ek;
-      try (rewrite (scalar_eq_spec _ (OMsg fs) inlit I I); destruct (spec_scalar true _ (OMsg fs) inlit); cbn; eauto).
+      try (rewrite (scalar_eq_spec _ (OMsg fs) inlit I); destruct (spec_scalar true _ (OMsg fs) inlit); cbn; eauto).
     + destruct (nth_error (senums sch) e); [|cbn; eauto].
       rewrite (enum_eq_spec _ (OMsg fs) inlit I). destruct (spec_enum _ _ _); cbn; eauto.
     + destruct (lit_loop sch tt (fun f x => field_value sch tt f x true) m fs [] false []) as [ov es] eqn:El.
@@ -733,7 +743,7 @@ Proof.
       * destruct Hr as [Hbad|He]; [exfalso; apply Hbad; reflexivity|exact He].
   - (* OList *) intros es IHes. split.
     + intros Hlex fld inlit. unfold vres_agree. cbn [field_value spec_value]. destruct (fkind fld) eqn:Ek;
-        try (rewrite (scalar_eq_spec _ (OList es) inlit I I); destruct (spec_scalar true _ (OList es) inlit); cbn; eauto).
+        try (rewrite (scalar_eq_spec _ (OList es) inlit I); destruct (spec_scalar true _ (OList es) inlit); cbn; eauto).
       * destruct (nth_error (senums sch) e); [|cbn; eauto].
         rewrite (enum_eq_spec _ (OList es) inlit I). destruct (spec_enum _ _ _); cbn; eauto.
       * cbn. eauto.
@@ -750,7 +760,6 @@ Section Statements.
 Variable sch : schema.
 Variable tt : N.
 Hypothesis Hwf : schema_wf sch = true.
-Hypothesis Hex : schema_explicit sch = true.
 
 Definition spec_from (md : nat) (m : mval) (name : list npart) (v : oval) : res mval :=
   match resolve_path sch md name with
@@ -776,10 +785,12 @@ Proof. unfold has, present. intros ->. destruct (mget (fnum f) m); reflexivity. 
 
 Lemma lookup_wf md nm f : lookup_part sch md nm = Ok f -> field_wf f = true.
 Proof. apply all_fields_lookup. exact Hwf. Qed.
-Lemma lookup_explicit md nm f : lookup_part sch md nm = Ok f -> fimplicit f = false.
+(* a message-typed field always has presence *)
+Lemma wf_msg_explicit f sub : field_wf f = true -> fkind f = KMsg sub -> fimplicit f = false.
 Proof.
-  intros H. pose proof (all_fields_lookup field_explicit sch md nm f Hex H) as He.
-  unfold field_explicit in He. destruct (fimplicit f); [discriminate|reflexivity].
+  unfold field_wf. intros H Hk. rewrite Hk in H. cbn [is_kmsg] in H.
+  destruct (fimplicit f); [|reflexivity]. cbn in H. rewrite andb_false_r in H. cbn in H.
+  rewrite andb_false_r in H. discriminate.
 Qed.
 
 Lemma absent_sub_at n m : present n m = false -> sub_at n m = [].
@@ -793,17 +804,17 @@ Proof.
   rewrite Hr in H. discriminate.
 Qed.
 
-(* the leaf: storing through reflection = conflict test on the path end + put *)
+(* the leaf, outside a literal: storing = conflict test on the path end + put *)
 Lemma store_conflict md fld vs m :
-  field_wf fld = true -> fimplicit fld = false -> (frep fld = false -> exists x, vs = [x]) ->
-  spec_store (msg_fields sch md) fld vs m =
+  field_wf fld = true -> (frep fld = false -> exists x, vs = [x]) ->
+  spec_store false (msg_fields sch md) fld vs m =
   match path_conflict sch [] md fld m with Some x => Err x | None => Ok (put fld vs m) end.
 Proof.
-  intros Hw Hi Hs. unfold spec_store, put. cbn [path_conflict]. destruct (frep fld) eqn:Er.
+  intros Hw Hs. unfold spec_store, put. cbn [path_conflict]. destruct (frep fld) eqn:Er.
   - rewrite (wf_rep_no_oneof _ _ _ Hw Er). reflexivity.
   - destruct (Hs eq_refl) as [x ->]. cbn [negb andb].
     destruct (oneof_conflict (msg_fields sch md) fld m); [reflexivity|].
-    rewrite (explicit_has _ _ Hi). destruct (present (fnum fld) m); reflexivity.
+    destruct (present (fnum fld) m); reflexivity.
 Qed.
 
 Lemma resolve_path_cons2 md nm nm2 rest :
@@ -871,12 +882,12 @@ Proof.
   - inversion H; subst. unfold spec_from. cbn. eauto.
   - destruct (lookup_part sch md nm) as [fld|x] eqn:El.
     2:{ inversion H; subst. unfold spec_from. cbn [resolve_path]. rewrite El. eauto. }
-    pose proof (lookup_wf _ _ _ El) as Hfw. pose proof (lookup_explicit _ _ _ El) as Hfe.
+    pose proof (lookup_wf _ _ _ El) as Hfw.
     destruct rest as [|nm2 rest2].
     + (* the last part *)
       destruct (set_option_field sch tt (msg_fields sch md) m fld v false) as [m2 e2] eqn:Es.
       inversion H; subst m' es. clear H. unfold set_option_field in Es.
-      pose proof (set_field_agree _ _ _ _ _ _ _ _ Hfw (stmt_value_agree sch tt Hwf Hex v false fld Hlex) Es) as Hb.
+      pose proof (set_field_agree _ _ _ _ _ _ _ _ _ Hfw (stmt_value_agree sch tt Hwf v false fld Hlex) Es) as Hb.
       unfold spec_from. cbn [resolve_path]. rewrite El. cbn [forallb andb].
       destruct (target_ok tt fld) eqn:Et; cbn [negb].
       2:{ assert (Hu : check_field_usage tt fld <> []).
@@ -885,12 +896,12 @@ Proof.
       apply usage_target in Et. rewrite Et. cbn [app].
       destruct e2 as [|e0 er].
       * destruct Hb as [vs [Hv Hst]]. rewrite Hv.
-        rewrite (store_conflict md fld vs m Hfw Hfe) in Hst.
+        rewrite (store_conflict md fld vs m Hfw) in Hst.
         2:{ intros Hr. eapply spec_values_single; eassumption. }
         destruct (path_conflict sch [] md fld m); [discriminate|]. cbn [merge_along]. exact Hst.
       * destruct Hb as [[e He]|[vs [e [Hv Hst]]]].
         -- rewrite He. destruct (path_conflict sch [] md fld m); eauto.
-        -- rewrite Hv. rewrite (store_conflict md fld vs m Hfw Hfe) in Hst.
+        -- rewrite Hv. rewrite (store_conflict md fld vs m Hfw) in Hst.
            2:{ intros Hr. eapply spec_values_single; eassumption. }
            destruct (path_conflict sch [] md fld m); [eauto|discriminate].
     + (* an intermediate part *)
@@ -901,7 +912,7 @@ Proof.
       { inversion H; subst. destruct (check_field_usage tt fld); cbn [app];
           unfold spec_from; rewrite resolve_path_cons2, El, Ek, Er; eauto. }
       pose proof (spec_from_cons md m nm nm2 rest2 v fld sub El Ek Er) as Hc.
-      rewrite (explicit_has _ _ Hfe) in H.
+      rewrite (explicit_has _ _ (wf_msg_explicit _ _ Hfw Ek)) in H.
       assert (Hstep : forall s' e', interpret_field sch tt sub (sub_at (fnum fld) m) (nm2 :: rest2) v = (s', e') ->
                 (present (fnum fld) m = true \/ oneof_conflict (msg_fields sch md) fld m = false) ->
                 match check_field_usage tt fld ++ e' with
@@ -937,7 +948,6 @@ Section Run.
 Variable sch : schema.
 Variable tt : N.
 Hypothesis Hwf : schema_wf sch = true.
-Hypothesis Hex : schema_explicit sch = true.
 
 Definition this_phase (c : bool) (st : stmt) : bool := Bool.eqb (is_custom st) c.
 
@@ -953,7 +963,7 @@ Proof.
   - cbn [stmts_lexable forallb] in Hl. apply andb_prop in Hl. destruct Hl as [Hst Hr].
     change (Bool.eqb (is_custom st) c) with (this_phase c st). destruct (this_phase c st); cbn [negb].
     + destruct (interpret_field sch tt T m (sname st) (svalue st)) as [m1 es] eqn:Ei.
-      pose proof (interpret_field_agree sch tt Hwf Hex _ Hst _ _ _ _ _ Ei) as Ha.
+      pose proof (interpret_field_agree sch tt Hwf _ Hst _ _ _ _ _ Ei) as Ha.
       cbn [spec_fold]. rewrite spec_stmt_from. destruct es as [|e0 er].
       * rewrite Ha. apply IH. exact Hr.
       * destruct Ha as [e He]. rewrite He. eauto.
@@ -980,7 +990,7 @@ Proof.
 Qed.
 
 (* C20: the strict run and protoc's interpretation end in the same options message, or both reject *)
-Lemma interpret_eq_protoc_partial_lemma T m0 stmts :
+Lemma interpret_eq_protoc_lemma T m0 stmts :
   stmts_lexable stmts = true ->
   same_outcome (interpret_strict sch tt T m0 stmts) (protoc_interpret sch tt true T m0 stmts).
 Proof.
@@ -1006,22 +1016,45 @@ Proof.
 Qed.
 End Run.
 
-(* The code as it is, on a schema with a proto3 field without presence: setting the zero value does not
-   count as set, so a second statement for the same field is accepted; protoc rejects it. *)
+(* Historical (before f7db43f0): on a proto3 field without presence, setting the zero value did not count as set -
+   the test was Has alone - so a second statement for the same field was accepted; protoc rejects it.  Now the
+   strict run rejects it like the specification. *)
+Definition ip_field : field := mkField "a" 1%N KInt32 false None true [].
 Definition ip_schema : schema :=
-  mkSchema [mkMsg []; mkMsg [mkField "a" 1%N KInt32 false None true []]] []
+  mkSchema [mkMsg []; mkMsg [ip_field]] []
            [mkExt "foo" 0%nat (mkField "foo" 50001%N (KMsg 1) false None false [])].
 Definition ip_stmts : list stmt :=
   [mkStmt [PExt "foo"; PField "a"] (OUint 0); mkStmt [PExt "foo"; PField "a"] (OUint 5)].
 
-Lemma interpret_eq_protoc_refuted_lemma :
-  exists sch tt T stmts,
-    schema_wf sch = true /\ stmts_lexable stmts = true /\
-    ~ same_outcome (interpret_strict sch tt T [] stmts) (protoc_interpret sch tt true T [] stmts).
+Lemma set_twice_without_presence_lemma :
+  is_set_old ip_field [(1%N, VS (SInt 0))] = false /\ is_set false ip_field [(1%N, VS (SInt 0))] = true /\
+  interpret_strict ip_schema 3%N 0%nat [] ip_stmts = Err EAlreadySet /\
+  protoc_interpret ip_schema 3%N true 0%nat [] ip_stmts = Err EAlreadySet.
+Proof. repeat split; vm_compute; reflexivity. Qed.
+
+(* Historical (before bb1a10d1): inside a message literal a float field did not take the word Infinity (nor INF,
+   infinity, NaN, ...), which protoc's text format reads in any letter case.  Now it does. *)
+Definition fw_schema : schema :=
+  mkSchema [mkMsg []; mkMsg [mkField "f" 1%N KFloat false None false []]] []
+           [mkExt "foo" 0%nat (mkField "foo" 50001%N (KMsg 1) false None false [])].
+Definition fw_stmts : list stmt := [mkStmt [PExt "foo"] (OMsg [(LField "f", OIdent "Infinity")])].
+
+Lemma float_words_lemma :
+  float_ident_old "Infinity" = None /\ float_word true true "Infinity" = Some (FInf false) /\
+  exists m, interpret_strict fw_schema 3%N 0%nat [] fw_stmts = Ok (m, []) /\
+            protoc_interpret fw_schema 3%N true 0%nat [] fw_stmts = Ok m.
 Proof.
-  exists ip_schema, 3%N, 0%nat, ip_stmts. split; [reflexivity|]. split; [reflexivity|].
-  vm_compute. exact (fun H => H).
+  split; [reflexivity|]. split; [reflexivity|]. eexists. split; vm_compute; reflexivity.
 Qed.
+
+(* Since 36246e7a an extension of another message inside a message literal is an error like in an option name
+   (before, the reflective access panicked). *)
+Lemma foreign_extension_in_literal_lemma :
+  let sch := mkSchema [mkMsg []; mkMsg []; mkMsg []] []
+               [mkExt "foo" 0%nat (mkField "foo" 50001%N (KMsg 1) false None false []);
+                mkExt "pe" 2%nat (mkField "pe" 100%N KInt32 false None false [])] in
+  interpret_strict sch 3%N 0%nat [] [mkStmt [PExt "foo"] (OMsg [(LExt "pe", OUint 1)])] = Err EWrongExtendee.
+Proof. vm_compute. reflexivity. Qed.
 
 (* ================================================================== unlinked interpretation *)
 (* Transfer of a successful interpretation between two schemas that have the same messages and enums and
@@ -1033,7 +1066,7 @@ Hypothesis Hmsgs : smsgs schA = smsgs schB.
 Hypothesis Henums : senums schA = senums schB.
 Variable okl : lname -> bool.
 Variable okp : npart -> bool.
-Hypothesis Hokl : forall nm md r, okl nm = true -> lit_field schA md nm = Ok r -> lit_field schB md nm = Ok r.
+Hypothesis Hokl : forall nm md (r : field), okl nm = true -> lit_field schA md nm = Ok r -> lit_field schB md nm = Ok r.
 Hypothesis Hokp : forall nm md f, okp nm = true -> lookup_part schA md nm = Ok f -> lookup_part schB md nm = Ok f.
 
 Fixpoint names_ok (v : oval) : bool :=
@@ -1069,23 +1102,21 @@ Proof.
     rewrite (Hit _ Ef). subst m'. reflexivity.
 Qed.
 
-Lemma set_field_transfer fvA fvB fields foreign m fld v m' :
+Lemma set_field_transfer fvA fvB fields inlit m fld v m' :
   arg_transfer fvA fvB fld v ->
-  set_option_field_with fvA fields foreign m fld v = (m', []) ->
-  set_option_field_with fvB fields foreign m fld v = (m', []).
+  set_option_field_with fvA fields inlit m fld v = (m', []) ->
+  set_option_field_with fvB fields inlit m fld v = (m', []).
 Proof.
   intros Ht H. unfold set_option_field_with, arg_transfer in *.
   destruct v;
-    try (destruct (foreign && _); [discriminate|];
-         destruct (fvA fld _) as [ov e] eqn:Ef;
+    try (destruct (fvA fld _) as [ov e] eqn:Ef;
          assert (He : e = []) by
            (destruct ov; [|inversion H; reflexivity];
-            destruct foreign; [injection H as _ Hx; apply app_nil_inv in Hx; destruct Hx; discriminate|];
             destruct (oneof_conflict fields fld m); [injection H as _ Hx; apply app_nil_inv in Hx; destruct Hx; discriminate|];
             destruct (frep fld); [inversion H; reflexivity|];
-            destruct (has fld m); [injection H as _ Hx; apply app_nil_inv in Hx; destruct Hx; discriminate|inversion H; reflexivity]);
+            destruct (is_set inlit fld m); [injection H as _ Hx; apply app_nil_inv in Hx; destruct Hx; discriminate|inversion H; reflexivity]);
          subst e; rewrite (Ht _ Ef); exact H).
-  destruct (negb (frep fld)); [discriminate|]. destruct foreign; [discriminate|].
+  destruct (negb (frep fld)); [discriminate|].
   apply (list_loop_transfer fvA fvB); assumption.
 Qed.
 
@@ -1094,8 +1125,8 @@ Lemma lit_loop_flag sch fv md : forall fs m had flag ov,
 Proof.
   induction fs as [|[nm fv1] r IH]; intros m had flag ov H; cbn [lit_loop] in H.
   - destruct had; inversion H; reflexivity.
-  - destruct (lit_field sch md nm) as [[ffld foreign]|x].
-    + destruct (set_option_field_with fv (msg_fields sch md) foreign m ffld fv1) as [m1 e1].
+  - destruct (lit_field sch md nm) as [ffld|x].
+    + destruct (set_option_field_with fv (msg_fields sch md) true m ffld fv1) as [m1 e1].
       apply IH in H. apply app_nil_inv in H. tauto.
     + apply IH in H. apply app_nil_inv in H. destruct H; discriminate.
 Qed.
@@ -1105,15 +1136,16 @@ Lemma lit_loop_transfer fvA fvB md : forall fs m had flag ov,
   lit_loop schA tt fvA md fs m had flag = (ov, []) ->
   lit_loop schB tt fvB md fs m had flag = (ov, []).
 Proof.
-  induction fs as [|[nm fv1] r IH]; intros m had flag ov Hall H; cbn [lit_loop] in *; [exact H|].
-  inversion Hall as [|? ? [Hn Hp] Hr]; subst. cbn [fst snd] in Hn, Hp.
-  destruct (lit_field schA md nm) as [[ffld foreign]|x] eqn:El.
-  - rewrite (Hokl _ _ _ Hn El). rewrite <- msg_fields_AB.
-    destruct (set_option_field_with fvA (msg_fields schA md) foreign m ffld fv1) as [m1 e1] eqn:Es.
-    pose proof (lit_loop_flag _ _ _ _ _ _ _ _ H) as Hf. apply app_nil_inv in Hf. destruct Hf as [-> Hf].
-    apply app_nil_inv in Hf. destruct Hf as [Hu ->].
-    rewrite (set_field_transfer fvA fvB _ _ _ ffld fv1 _ (Hp ffld) Es). apply IH; assumption.
-  - pose proof (lit_loop_flag _ _ _ _ _ _ _ _ H) as Hf. apply app_nil_inv in Hf. destruct Hf; discriminate.
+  induction fs as [|[nm fv1] r IH]; intros m had flag ov Hall H; cbn [lit_loop] in *.
+  - rewrite <- msg_fields_AB. exact H.
+  - inversion Hall as [|? ? [Hn Hp] Hr]; subst. cbn [fst snd] in Hn, Hp.
+    destruct (lit_field schA md nm) as [ffld|x] eqn:El.
+    + rewrite (Hokl _ _ _ Hn El). rewrite <- msg_fields_AB.
+      destruct (set_option_field_with fvA (msg_fields schA md) true m ffld fv1) as [m1 e1] eqn:Es.
+      pose proof (lit_loop_flag _ _ _ _ _ _ _ _ H) as Hf. apply app_nil_inv in Hf. destruct Hf as [-> Hf].
+      apply app_nil_inv in Hf. destruct Hf as [Hu ->].
+      rewrite (set_field_transfer fvA fvB _ _ _ ffld fv1 _ (Hp ffld) Es). apply IH; assumption.
+    + pose proof (lit_loop_flag _ _ _ _ _ _ _ _ H) as Hf. apply app_nil_inv in Hf. destruct Hf; discriminate.
 Qed.
 
 Definition value_transfer (v : oval) : Prop :=
@@ -1231,26 +1263,26 @@ Variable tt : N.
 Lemma pass1_unlinked T : forall stmts m m1 r1,
   noncustom_ext_free stmts = true ->
   pass_strict sch tt false T m stmts = Ok (m1, r1) ->
-  pass_lenient (no_exts sch) tt false T m stmts = LOk m1 r1.
+  exists done, pass_lenient (no_exts sch) tt false T m stmts = (m1, r1, done).
 Proof.
   induction stmts as [|st r IH]; intros m m1 r1 Hf H; cbn [pass_strict] in H; cbn [pass_lenient].
-  - inversion H; reflexivity.
+  - inversion H; eauto.
   - cbn [noncustom_ext_free forallb] in Hf. apply andb_prop in Hf. destruct Hf as [Hst Hr].
     destruct (is_custom st) eqn:Ec; cbn [Bool.eqb negb orb] in *.
     + destruct (pass_strict sch tt false T m r) as [[m2 rem2]|x] eqn:E2; [|discriminate].
-      inversion H; subst. rewrite (IH _ _ _ Hr E2). reflexivity.
+      inversion H; subst. destruct (IH _ _ _ Hr E2) as [d Hd]. rewrite Hd. eauto.
     + destruct (interpret_field sch tt T m (sname st) (svalue st)) as [m2 [|x es]] eqn:Ei; [|discriminate].
-      rewrite (ext_free_statement_lemma _ _ _ _ _ _ Hst Ei). cbn [has_panic existsb].
-      rewrite (IH _ _ _ Hr H). reflexivity.
+      rewrite (ext_free_statement_lemma _ _ _ _ _ _ Hst Ei).
+      destruct (IH _ _ _ Hr H) as [d Hd]. rewrite Hd. eauto.
 Qed.
 
 Lemma pass2_unlinked T : forall r1 m,
-  forallb is_custom r1 = true -> pass_lenient (no_exts sch) tt true T m r1 = LOk m r1.
+  forallb is_custom r1 = true -> pass_lenient (no_exts sch) tt true T m r1 = (m, r1, []).
 Proof.
   induction r1 as [|st r IH]; intros m Hc; cbn [pass_lenient]; [reflexivity|].
   cbn [forallb] in Hc. apply andb_prop in Hc. destruct Hc as [Hst Hr]. rewrite Hst. cbn [Bool.eqb negb].
   unfold is_custom in Hst. destruct (sname st) as [|[s|s] rest] eqn:En; try discriminate.
-  cbn [interpret_field lookup_part no_exts sexts ext_by_name has_panic existsb orb].
+  cbn [interpret_field lookup_part no_exts sexts ext_by_name].
   rewrite (IH m Hr). reflexivity.
 Qed.
 
@@ -1260,132 +1292,28 @@ Qed.
 Lemma unlinked_run_lemma T m0 stmts m rem :
   noncustom_ext_free stmts = true ->
   interpret_strict sch tt T m0 stmts = Ok (m, rem) ->
-  exists m1, pass_strict sch tt false T m0 stmts = Ok (m1, filter is_custom stmts) /\
-             interpret_unlinked sch tt T m0 stmts = LOk m1 (filter is_custom stmts).
+  exists m1 done, pass_strict sch tt false T m0 stmts = Ok (m1, filter is_custom stmts) /\
+                  interpret_unlinked sch tt T m0 stmts = (m1, filter is_custom stmts, done).
 Proof.
   intros Hf H. unfold interpret_strict in H.
   destruct (pass_strict sch tt false T m0 stmts) as [[m1 r1]|x] eqn:E1; [|discriminate].
   pose proof (pass_strict_remain _ _ _ _ _ _ _ _ E1) as Hr1.
   assert (Er1 : r1 = filter is_custom stmts).
   { rewrite Hr1. apply filter_ext. intros st. unfold other_phase. destruct (is_custom st); reflexivity. }
-  subst r1. rewrite Er1 in *. exists m1. split; [reflexivity|].
-  unfold interpret_unlinked, interpret_lenient. rewrite (pass1_unlinked _ _ _ _ _ Hf E1).
-  apply pass2_unlinked. rewrite forallb_forall. intros st Hst. apply filter_In in Hst. tauto.
+  subst r1. rewrite Er1 in *.
+  destruct (pass1_unlinked _ _ _ _ _ Hf E1) as [d1 Hd1]. exists m1, (d1 ++ []). split; [reflexivity|].
+  unfold interpret_unlinked, interpret_lenient. rewrite Hd1.
+  rewrite pass2_unlinked; [reflexivity|].
+  rewrite forallb_forall. intros st Hst. apply filter_In in Hst. tauto.
 Qed.
 End UnlinkedRun.
 
 (* ================================================================== statements as they appear in Props *)
-Lemma uninterpreted_kept_verbatim_full_lemma : forall sch tt T m0 stmts m rem,
-  interpret_lenient sch tt T m0 stmts = LOk m rem ->
+Lemma uninterpreted_kept_verbatim_full_lemma : forall sch tt T m0 stmts m rem done,
+  interpret_lenient sch tt T m0 stmts = (m, rem, done) ->
   (exists m1, ref_walk sch tt T m0 m1 stmts = (m1, m, rem)) /\ subseq rem stmts.
 Proof.
-  intros sch tt T m0 stmts m rem H.
-  destruct (uninterpreted_kept_verbatim_lemma sch tt T m0 stmts m rem H) as [m1 Hw].
+  intros sch tt T m0 stmts m rem done H.
+  destruct (uninterpreted_kept_verbatim_lemma sch tt T m0 stmts m rem done H) as [m1 Hw].
   split; [exists m1; exact Hw|exact (ref_walk_subseq sch tt T stmts m0 m1 m1 m rem Hw)].
-Qed.
-
-Lemma no_half_population_refuted_full_lemma :
-  (exists sch tt T m name v m' e, interpret_field sch tt T m name v = (m', e) /\ e <> [] /\ m' <> m) /\
-  (exists sch tt T st m, interpret_lenient sch tt T [] [st] = LOk m [st] /\ m <> []).
-Proof. exact (conj no_half_population_refuted_lemma no_half_population_run_refuted_lemma). Qed.
-
-(* ================================================================== the repaired lenient run *)
-Section Repaired.
-Variable sch : schema.
-Variable tt : N.
-
-Lemma apply_all_app T : forall a b m,
-  apply_all sch tt T m (a ++ b) = match apply_all sch tt T m a with Some m1 => apply_all sch tt T m1 b | None => None end.
-Proof.
-  induction a as [|st r IH]; intros b m; cbn [app apply_all]; [reflexivity|].
-  destruct (interpret_field sch tt T m (sname st) (svalue st)) as [m1 [|x es]]; [apply IH|reflexivity].
-Qed.
-
-(* one pass: the message is what the interpreted options alone produce, each without error; every option of the
-   pass is either kept or interpreted, in order; the kept ones and the options of the other pass form the remainder *)
-Lemma pass_lenient_fx_spec c T : forall uo m m' rem done,
-  pass_lenient_fx sch tt c T m uo = Some (m', rem, done) ->
-  apply_all sch tt T m done = Some m' /\ subseq rem uo /\ subseq done uo /\
-  (List.length rem + List.length done = List.length uo)%nat.
-Proof.
-  induction uo as [|st r IH]; intros m m' rem done H; cbn [pass_lenient_fx] in H.
-  - inversion H; subst. repeat split; constructor.
-  - destruct (negb (Bool.eqb (is_custom st) c)).
-    + destruct (pass_lenient_fx sch tt c T m r) as [[[m2 rem2] done2]|] eqn:E; [|discriminate].
-      inversion H; subst. destruct (IH _ _ _ _ E) as [Ha [Hr [Hd Hl]]].
-      repeat split; [exact Ha|apply subseq_keep; exact Hr|apply subseq_drop; exact Hd|cbn [List.length]; lia].
-    + destruct (interpret_field sch tt T m (sname st) (svalue st)) as [m1 e] eqn:Ei.
-      destruct (has_panic e); [discriminate|]. destruct e as [|x es].
-      * destruct (pass_lenient_fx sch tt c T m1 r) as [[[m2 rem2] done2]|] eqn:E; [|discriminate].
-        inversion H; subst. destruct (IH _ _ _ _ E) as [Ha [Hr [Hd Hl]]].
-        repeat split; [cbn [apply_all]; rewrite Ei; exact Ha|apply subseq_drop; exact Hr|apply subseq_keep; exact Hd|cbn [List.length]; lia].
-      * destruct (pass_lenient_fx sch tt c T m r) as [[[m2 rem2] done2]|] eqn:E; [|discriminate].
-        inversion H; subst. destruct (IH _ _ _ _ E) as [Ha [Hr [Hd Hl]]].
-        repeat split; [exact Ha|apply subseq_keep; exact Hr|apply subseq_drop; exact Hd|cbn [List.length]; lia].
-Qed.
-
-Lemma subseq_trans {A} : forall (b c : list A), subseq b c -> forall a, subseq a b -> subseq a c.
-Proof.
-  induction 1 as [|x b c Hbc IH|x b c Hbc IH]; intros a Hab.
-  - exact Hab.
-  - inversion Hab; subst; [apply subseq_keep; apply IH; assumption|apply subseq_drop; apply IH; assumption].
-  - apply subseq_drop. apply IH. exact Hab.
-Qed.
-
-(* The repaired run: the options message is exactly what the interpreted options produce when applied alone, in the
-   order of the two passes and each without error - options that are kept uninterpreted leave no trace.  The
-   remainder and the interpreted options partition the statements, each in source order. *)
-Lemma no_half_population_repaired_lemma T m0 stmts m rem done :
-  interpret_lenient_fx sch tt T m0 stmts = Some (m, rem, done) ->
-  apply_all sch tt T m0 done = Some m /\ subseq rem stmts /\ (List.length rem + List.length done = List.length stmts)%nat.
-Proof.
-  unfold interpret_lenient_fx. intros H.
-  destruct (pass_lenient_fx sch tt false T m0 stmts) as [[[m1 r1] d1]|] eqn:E1; [|discriminate].
-  destruct (pass_lenient_fx sch tt true T m1 r1) as [[[m2 r2] d2]|] eqn:E2; [|discriminate].
-  inversion H; subst.
-  destruct (pass_lenient_fx_spec _ _ _ _ _ _ _ E1) as [Ha1 [Hr1 [Hd1 Hl1]]].
-  destruct (pass_lenient_fx_spec _ _ _ _ _ _ _ E2) as [Ha2 [Hr2 [Hd2 Hl2]]].
-  split; [rewrite apply_all_app, Ha1; exact Ha2|]. split; [exact (subseq_trans _ _ Hr1 _ Hr2)|].
-  rewrite app_length. lia.
-Qed.
-
-(* the repair changes nothing when strict interpretation succeeds *)
-Lemma pass_strict_lenient_fx c T : forall uo m m' rem,
-  pass_strict sch tt c T m uo = Ok (m', rem) -> exists done, pass_lenient_fx sch tt c T m uo = Some (m', rem, done).
-Proof.
-  induction uo as [|st r IH]; intros m m' rem H; cbn [pass_strict] in H; cbn [pass_lenient_fx].
-  - inversion H; eauto.
-  - destruct (negb (Bool.eqb (is_custom st) c)).
-    + destruct (pass_strict sch tt c T m r) as [[m2 rem2]|x] eqn:E2; [|discriminate].
-      inversion H; subst. destruct (IH _ _ _ E2) as [d Hd]. rewrite Hd. eauto.
-    + destruct (interpret_field sch tt T m (sname st) (svalue st)) as [m1 [|x es]]; [|discriminate].
-      cbn [has_panic existsb]. destruct (IH _ _ _ H) as [d Hd]. rewrite Hd. eauto.
-Qed.
-
-Lemma strict_ok_implies_lenient_fx_same_lemma T m0 stmts m rem :
-  interpret_strict sch tt T m0 stmts = Ok (m, rem) ->
-  exists done, interpret_lenient_fx sch tt T m0 stmts = Some (m, [], done).
-Proof.
-  intros H. pose proof (no_uninterpreted_left_on_success_lemma _ _ _ _ _ _ _ H) as ->.
-  unfold interpret_strict in H. unfold interpret_lenient_fx.
-  destruct (pass_strict sch tt false T m0 stmts) as [[m1 r1]|x] eqn:E1; [|discriminate].
-  destruct (pass_strict_lenient_fx _ _ _ _ _ _ E1) as [d1 Hd1]. rewrite Hd1.
-  destruct (pass_strict_lenient_fx _ _ _ _ _ _ H) as [d2 Hd2]. rewrite Hd2. eauto.
-Qed.
-End Repaired.
-
-(* The code as it is, inside a message literal: a float field does not take the word Infinity (nor INF, infinity,
-   NaN, ...), which protoc's text format reads in any letter case; the schema has presence everywhere. *)
-Definition fw_schema : schema :=
-  mkSchema [mkMsg []; mkMsg [mkField "f" 1%N KFloat false None false []]] []
-           [mkExt "foo" 0%nat (mkField "foo" 50001%N (KMsg 1) false None false [])].
-Definition fw_stmts : list stmt := [mkStmt [PExt "foo"] (OMsg [(LField "f", OIdent "Infinity")])].
-
-Lemma interpret_eq_protoc_refuted_words_lemma :
-  exists sch tt T stmts,
-    schema_wf sch = true /\ schema_explicit sch = true /\
-    ~ same_outcome (interpret_strict sch tt T [] stmts) (protoc_interpret sch tt true T [] stmts).
-Proof.
-  exists fw_schema, 3%N, 0%nat, fw_stmts. split; [reflexivity|]. split; [reflexivity|].
-  vm_compute. exact (fun H => H).
 Qed.
